@@ -295,7 +295,7 @@ Proof.
 Qed.
 
 Lemma lower_matches_c_adjustment : forall p, rarg_matches (c_adjust p) (lower_arg p).
-Proof. intros [ec sc e|t]; cbn; auto. Qed.
+Proof. intros [ec sc e|t|t]; cbn; auto. Qed.
 
 (* ---------- non-vacuity ---------- *)
 Example ex_identical_stdcall :
